@@ -50,7 +50,7 @@ def run_family(mg, sps):
                     X, Y = operands(dt, layout, rng)
                     O = (rng.rand(2, 3)).astype(dt if dt.startswith("float") else "float64")
                     x, y = mg.Tensor(X, constant=cx), mg.Tensor(Y, constant=cy)
-                    env = {"mg": mg, "np": np, "x": x, "y": y, "M": M, "O_t": lambda: mg.Tensor(O.copy())}
+                    env = {"mg": mg, "np": np, "x": x, "y": y, "M": M, "O_t": lambda: mg.Tensor(O.copy()), "O64": lambda: mg.Tensor(O.astype("float64"))}
                     s = sp.format(a="x", b="y")
                     try:
                         with np.errstate(all="ignore"):
@@ -71,7 +71,7 @@ def run_family(mg, sps):
                 checked += 1
                 fams = {}
                 for r in rows:
-                    fams.setdefault(("where" in r[0], "1.5" in r[0], "2.0" in r[0] and "**" in r[0]), []).append(r)
+                    fams.setdefault(("where" in r[0], "1.5" in r[0], "2.0" in r[0] and "**" in r[0], "dtype=" in r[0]), []).append(r)
                 tag = "%s x.const=%s y.const=%s layout=%s" % (dt, cx, cy, layout)
                 for fam in fams.values():
                     ref = next((r for r in fam if r[1] == "ok"), None)
@@ -86,7 +86,8 @@ def run_family(mg, sps):
                             findings.append("%s: `%s` dtype %s, `%s` dtype %s" % (tag, r[0], r[4], ref[0], ref[4]))
                         if r[3] != ref[3]:
                             findings.append("%s: `%s` constant=%s, `%s` constant=%s" % (tag, r[0], r[3], ref[0], ref[3]))
-                        tol = dict(rtol=2e-2, atol=1e-3) if dt == "float16" else dict(rtol=1e-5, atol=1e-7)
+                        # tolerance by the dtype the result is computed in: spellings of one operation run the same kernel
+                        tol = {"float16": dict(rtol=2e-2, atol=1e-3), "float32": dict(rtol=1e-5, atol=1e-7)}.get(r[4], dict(rtol=1e-13, atol=0.0))
                         if r[2].shape != ref[2].shape or not np.allclose(r[2].astype(float), ref[2].astype(float), equal_nan=True, **tol):
                             findings.append("%s: `%s` and `%s` differ in value/shape" % (tag, r[0], ref[0]))
                         for k, nm in ((5, "x"), (6, "y")):
